@@ -1233,6 +1233,93 @@ def forward_none_tests(stmts, known=None):
     return out, changed
 
 
+# --------------------------------------------------------------------------------------------------- grouping dicts
+def setdefault_groups(fnode):
+    """D = {} ... D.setdefault("k", []).append(x) (constant keys, unconditional statements)
+       ->  D__k = [] ; D = {"k": D__k, ..} at the initialisation, and  D__k.append(x)  at each site
+    (the dict holds the very lists that are appended to, and the keys appear in first-occurrence order, as before)"""
+    changed = False
+    inits = {}
+    for n in walk_own(fnode):
+        if isinstance(n, (ast.Assign, ast.AnnAssign)):
+            t = n.targets[0] if isinstance(n, ast.Assign) and len(n.targets) == 1 else (n.target if isinstance(n, ast.AnnAssign) else None)
+            v = n.value
+            if isinstance(t, ast.Name) and v is not None and ((isinstance(v, ast.Dict) and not v.keys) or (isinstance(v, ast.Call) and U(v.func) in ("dict", "defaultdict", "collections.defaultdict") and
+                                                                                                               (not v.args or U(v.args[0]) == "list") and not v.keywords)):
+                inits.setdefault(t.id, []).append(n)
+    par = {}
+    for n in ast.walk(fnode):
+        for c in ast.iter_child_nodes(n):
+            par[c] = n
+
+    def unconditional(st):
+        p = par.get(st)
+        while p is not None and p is not fnode:
+            if not isinstance(p, (ast.With, ast.AsyncWith)):
+                return False
+            p = par.get(p)
+        return True
+    for d, ins in inits.items():
+        if len(ins) != 1 or not unconditional(ins[0]):
+            continue
+        sites = []
+        keys = []
+        ok = True
+        for x in walk_own(fnode):
+            if isinstance(x, ast.Name) and x.id == d and isinstance(x.ctx, ast.Store) and par.get(x) is not ins[0]:
+                ok = False
+            if not (isinstance(x, ast.Name) and x.id == d and isinstance(x.ctx, ast.Load)):
+                continue
+            p1 = par.get(x)
+            # D.setdefault("k", []).append(E)   or   D["k"].append(E) for a defaultdict(list)
+            call_sd = par.get(p1) if isinstance(p1, ast.Attribute) and p1.attr == "setdefault" else None
+            if isinstance(call_sd, ast.Call) and call_sd.func is p1 and len(call_sd.args) == 2 and isinstance(call_sd.args[0], ast.Constant) and isinstance(call_sd.args[0].value, str) \
+                    and call_sd.args[0].value.isidentifier() and U(call_sd.args[1]) == "[]":
+                app_attr = par.get(call_sd)
+                app_call = par.get(app_attr) if isinstance(app_attr, ast.Attribute) and app_attr.attr == "append" else None
+                stmt = par.get(app_call) if isinstance(app_call, ast.Call) and app_call.func is app_attr and len(app_call.args) == 1 else None
+                if isinstance(stmt, ast.Expr) and unconditional(stmt):
+                    sites.append((stmt, call_sd.args[0].value, app_call.args[0]))
+                    if call_sd.args[0].value not in keys:
+                        keys.append(call_sd.args[0].value)
+                    continue
+                ok = False
+        if not ok or not sites:
+            continue
+
+        def nm(k):
+            return f"{d}__{k}"
+        site_map = {id(s_[0]): s_ for s_ in sites}
+
+        def rewrite(stmts):
+            out = []
+            for st in stmts:
+                if st is ins[0]:
+                    for k in keys:
+                        out.append(ast.copy_location(ast.Assign(targets=[ast.Name(id=nm(k), ctx=ast.Store())], value=ast.List(elts=[], ctx=ast.Load()), lineno=st.lineno), st))
+                    out.append(ast.copy_location(ast.Assign(targets=[ast.Name(id=d, ctx=ast.Store())],
+                                                            value=ast.Dict(keys=[ast.Constant(value=k) for k in keys], values=[ast.Name(id=nm(k), ctx=ast.Load()) for k in keys]), lineno=st.lineno), st))
+                    continue
+                if id(st) in site_map:
+                    _, k, el = site_map[id(st)]
+                    out.append(ast.copy_location(ast.Expr(value=ast.Call(func=ast.Attribute(value=ast.Name(id=nm(k), ctx=ast.Load()), attr="append", ctx=ast.Load()), args=[el], keywords=[])), st))
+                    continue
+                for fld in ("body", "orelse", "finalbody"):
+                    sub = getattr(st, fld, None)
+                    if isinstance(sub, list) and sub and isinstance(sub[0], ast.stmt) and not isinstance(st, (ast.FunctionDef, ast.ClassDef)):
+                        setattr(st, fld, rewrite(sub))
+                out.append(st)
+            return out
+        fnode.body = rewrite(fnode.body)
+        ast.fix_missing_locations(fnode)
+        changed = True
+        par = {}
+        for n in ast.walk(fnode):
+            for c in ast.iter_child_nodes(n):
+                par[c] = n
+    return changed
+
+
 # --------------------------------------------------------------------------------------------------- functools.reduce
 def unfold_reduce(stmts, counter):
     """x = functools.reduce(F, IT, INIT) / return functools.reduce(..)   ->   acc = INIT; for e in IT: acc = F(acc, e); x = acc
@@ -1408,6 +1495,10 @@ def partial_evaluate(repo, max_rounds=8):
             if unroll_loops(repo, f, counter):
                 ch = True
                 steps.append("unroll")
+            if steps and setdefault_groups(f.node):
+                ch = True
+                steps.append("groups")
+                fold_append_sequences(f.node)
             if propagate_constant_locals(f.node):
                 ch = True
                 steps.append("constants")
